@@ -112,7 +112,7 @@ class Codec:
             return ds.Accept([(T(x), q / 1000) for x, q in j])
         if n == "list":
             return [T(x) for x in j]
-        if n == "set":
+        if n in ("set", "setv"):
             return ds.HeaderSet([T(x) for x in j])
         if n == "dict":
             return {T(k): T(v) for k, v in j}
@@ -190,7 +190,7 @@ class Codec:
             return http.parse_accept_header(s)
         if n == "list":
             return http.parse_list_header(s)
-        if n == "set":
+        if n in ("set", "setv"):
             return http.parse_set_header(s)
         if n == "dict":
             return http.parse_dict_header(s)
@@ -230,6 +230,8 @@ class Codec:
         n = self.name
         if n in ("quote", "quotent"):
             return eT(o)
+        if n == "setv":  # the value as its public reads describe it: iteration, len, membership
+            return {"items": [eT(x) for x in o], "n": len(o), "members": [[cps(p), p in o] for p in getattr(self, "probes", [])]}
         if n == "cookie":
             return [[eT(k), eT(v)] for k, v in o.items(multi=True)]
         if n == "accept":
@@ -890,3 +892,423 @@ def history_case(rng: random.Random, codec: str):
     if codec == "cc":
         b["j"] = d["j"] = a["j"]
     return {"op": "hist", "codec": codec, "j": a["j"], "variant": a.get("variant", ""), "others": [b["j"], d["j"]], "kind": rng.choice(MUT_KINDS)}
+
+
+# ------------------------------------------------------------------------------------------------ value histories
+VH_CODECS = ("setv", "list", "dict", "options", "etags", "cc", "cachecontrol", "csp", "crange", "range", "wwwauth", "authz", "accept")
+SET_NAMES = ["a", "A", "b", "B", "Cc", "cC", "vary", "Cookie", "accept-encoding", "x y", "q,r", 'w"', ""]
+
+
+def _set_muts(rng, init):
+    """mutations of a HeaderSet; arguments are drawn from the current members, their case variants, other members' names
+    and new names, so that every collision class of item assignment occurs"""
+    cur = list(dict.fromkeys(init))
+    muts = []
+    for _ in range(rng.choice([1, 2, 3, 4, 6])):
+        pool = list(SET_NAMES[:7])
+        for x in cur:
+            pool += [x, x.swapcase(), x.upper()]
+        a = rng.choice(pool)
+        op = rng.choice(["add", "add", "remove", "discard", "update", "clear", "setitem", "setitem", "setitem", "delitem"])
+        i = rng.choice([0, 0, 1, 2, -1, len(cur) - 1 if cur else 0, 5])
+        m = {"op": op, "a": cps(a) if op in ("add", "remove", "discard", "setitem") else [], "l": [], "i": i if op in ("setitem", "delitem") else 0}
+        if op == "update":
+            m["l"] = [cps(rng.choice(pool)) for _ in range(rng.choice([0, 1, 2, 3]))]
+        muts.append(m)
+        cur.append(a)
+    return muts
+
+
+def _apply_set_mut(o, m):
+    a, i = T(m["a"]) if m["a"] != NONE else "", m["i"]
+    op = m["op"]
+    if op == "add":
+        o.add(a)
+    elif op == "remove":
+        o.remove(a)
+    elif op == "discard":
+        o.discard(a)
+    elif op == "update":
+        o.update([T(x) for x in m["l"]])
+    elif op == "clear":
+        o.clear()
+    elif op == "setitem":
+        o[i] = a
+    elif op == "delitem":
+        del o[i]
+
+
+def _set_label(init, muts):
+    """generator-side class of the history (used for the violation key only): does an item assignment name a header that
+    is a member at ANOTHER position (in any letter case)?  Tracks the lower-cased member list under set semantics."""
+    ref = list(dict.fromkeys(x.lower() for x in init))
+    label = "plain"
+    for m in muts:
+        a = T(m["a"]).lower() if m["a"] else ""
+        op, i = m["op"], m["i"]
+        try:
+            if op == "add":
+                if a not in ref:
+                    ref.append(a)
+            elif op == "update":
+                for x in m["l"]:
+                    if T(x).lower() not in ref:
+                        ref.append(T(x).lower())
+            elif op in ("remove", "discard"):
+                if a in ref:
+                    ref.remove(a)
+            elif op == "clear":
+                ref = []
+            elif op == "delitem":
+                del ref[i]
+            elif op == "setitem":
+                k = range(len(ref))[i]
+                if a in ref and ref.index(a) != k:
+                    label = "setitem-names-another-member"
+                    other = ref.index(a)
+                    ref[k] = a
+                    del ref[other]
+                else:
+                    ref[k] = a
+        except (IndexError, ValueError, KeyError):
+            pass
+    return label
+
+
+def _mapping_muts(rng, keys, val, n=None):
+    muts = []
+    for _ in range(n or rng.choice([1, 2, 3, 5])):
+        op = rng.choice(["set", "set", "del", "pop", "update", "setdefault", "clear"])
+        muts.append([op, rng.choice(keys), val()])
+    return muts
+
+
+def _apply_mapping_mut(d, m):
+    op, k, v = m
+    if op == "set":
+        d[k] = v
+    elif op == "del":
+        del d[k]
+    elif op == "pop":
+        d.pop(k, None)
+    elif op == "update":
+        d.update({k: v})
+    elif op == "setdefault":
+        d.setdefault(k, v)
+    elif op == "clear":
+        d.clear()
+
+
+def value_history_case(rng: random.Random, codec: str):
+    """an initial value of `codec` (JSON shape) and a history of public mutators applied to it before it is dumped"""
+    base = (random_case2 if codec in CODECS2 else random_case)(rng, "set" if codec == "setv" else codec) if codec not in ("accept",) else None
+    if codec == "setv":
+        init = [rng.choice(SET_NAMES) for _ in range(rng.choice([0, 1, 2, 3, 4]))]
+        return {"op": "vh", "codec": codec, "j": [cps(x) for x in init], "variant": "", "muts": _set_muts(rng, init)}
+    if codec == "accept":
+        qs = rng.sample([1000, 900, 800, 500, 300, 100, 1], rng.choice([1, 2, 3, 4]))  # unsorted input: Accept orders it
+        j = [[cps(rng.choice(["text/html", "a/b", "*/*", "gzip", "en", rtoken(rng, lower=True)])), q] for q in qs]
+        return {"op": "vh", "codec": codec, "j": j, "variant": "", "muts": []}
+    tval = lambda: rtext(rng, 5)  # noqa: E731
+    keys = ["k", "zz", "a-b", rtoken(rng).replace("*", "x") or "k2"]
+    if codec == "list":
+        muts = [[rng.choice(["append", "insert", "pop", "setitem", "extend", "clear"]), rng.choice([0, 0, 1, -1]), tval()] for _ in range(rng.choice([1, 2, 4]))]
+    elif codec == "dict":
+        muts = _mapping_muts(rng, keys + [T(k) for k, _ in base["j"]], lambda: rng.choice([tval(), tval(), None]))
+    elif codec == "options":
+        muts = _mapping_muts(rng, [k.lower() for k in keys] + [T(k) for k, _ in base["j"]["opts"]], lambda: _no_pct22(tval()))
+    elif codec == "etags":
+        muts = [["input", rng.choice(["list-with-duplicates", "tuple", "generator", "set", "dict-keys"]), ""]]
+    elif codec in ("cc", "cachecontrol"):
+        base = random_case2(rng, "cachecontrol")
+        while base["j"]["cls"] != "resp":
+            base = random_case2(rng, "cachecontrol")
+        muts = []
+        for _ in range(rng.choice([1, 2, 3, 5])):
+            k = rng.random()
+            if k < 0.4:
+                muts.append(["delattr", rng.choice(CC_PROPS["resp"]), ""])
+            elif k < 0.6:
+                a = random_case2(rng, "cachecontrol")["j"]["assigns"]
+                muts.append(["setattr", T(a[0][0]), a[0][1]] if a else ["clear", "", ""])
+            else:
+                muts += _mapping_muts(rng, ["max-age", "no-cache", "private", "x-ext", "public"], lambda: rng.choice([None, "5", tval()]), 1)
+        codec = "cachecontrol"
+    elif codec == "csp":
+        props = ["default_src", "script_src", "img_src", "report_uri", "sandbox"]
+        cval = lambda: (rtext(rng, 6, forbid="\r\n;", lo=1).strip() or "'self'")  # noqa: E731
+        muts = []
+        for _ in range(rng.choice([1, 2, 3, 5])):
+            k = rng.random()
+            if k < 0.35:
+                muts.append(["setattr", rng.choice(props), cval()])
+            elif k < 0.55:
+                muts.append(["delattr", rng.choice(props), ""])
+            elif k < 0.65:
+                muts.append(["setattr", rng.choice(props), None])
+            else:
+                muts += _mapping_muts(rng, ["default-src", "script-src", "x-dir", "img-src"], cval, 1)
+    elif codec == "crange":
+        a = rnum(rng)
+        b = a + 1 + rng.choice([0, 1, rnum(rng)])
+        muts = [rng.choice([["unset"], ["set", a, b, rng.choice([None, b, b + rnum(rng)]), rng.choice(["bytes", "items"])]])]
+        muts += rng.choice([[], [["attr", "units", "items"]], [["set", a, b, None, "bytes"], ["attr", "length", b + 3]],
+                            [["set", a, b, None, "bytes"], ["attr", "stop", b + 1], ["attr", "units", "x-unit"]], [["set", None, None, rnum(rng), "bytes"]]])
+        if muts[-1] == ["unset"]:
+            muts.append(["set", a, b, None, "bytes"])
+    elif codec == "range":
+        muts = rng.choice([[["units", "items"]], [["replace", [[0, 5], [7, None]]]], [["append-after", 3, 4]], [["set0", [0, 1]]], [["units", "x"], ["replace", [[2, 9]]]]])
+    elif codec in ("wwwauth", "authz"):
+        k = rng.random()
+        pv = lambda: rtext(rng, 5)  # noqa: E731
+        if k < 0.5:
+            muts = [["params", rng.choice(["realm", "nonce", "zz", "qop"]), pv()] for _ in range(rng.choice([1, 2, 3]))]
+            muts = [["drop-token"]] + muts
+            if codec == "wwwauth":
+                muts += rng.choice([[], [["setitem", "zz2", pv()]], [["attr", "realm", pv()]], [["delitem", "zz"], ["setitem", "k", pv()]], [["type", "digest"]],
+                                    [["replace-params", [["realm", pv()], ["k", pv()]]]]])
+        else:
+            muts = [["token", "".join(rng.choice("abcXYZ019-._~+/") for _ in range(rng.randint(1, 9))) + "=" * rng.choice([0, 1, 2])]]
+            if rng.random() < 0.5:
+                muts.append(["type", rng.choice(["bearer", "negotiate", "x-tok"])])
+        if T(base["j"]["type"]) == "basic":
+            base["j"]["type"] = cps("custom")
+    else:
+        raise KeyError(codec)
+    return {"op": "vh", "codec": codec, "j": base["j"], "variant": base.get("variant", ""), "muts": muts}
+
+
+def _apply_mut(codec, o, m):
+    """apply one public mutator; returns the (possibly new) value object"""
+    from werkzeug import datastructures as ds
+
+    if codec == "setv":
+        _apply_set_mut(o, m)
+    elif codec == "list":
+        op, i, v = m
+        {"append": lambda: o.append(v), "insert": lambda: o.insert(i, v), "pop": lambda: o.pop(i), "setitem": lambda: o.__setitem__(i, v),
+         "extend": lambda: o.extend([v, "zz"]), "clear": lambda: o.clear()}[op]()
+    elif codec == "dict":
+        _apply_mapping_mut(o, m)
+    elif codec == "options":
+        if m[2] is not None:
+            _apply_mapping_mut(o[1], m)
+    elif codec == "etags":
+        st, wk = sorted(o._strong), sorted(o._weak)
+        kind = m[1]
+        if kind == "list-with-duplicates":
+            o = ds.ETags(st + st[::-1], wk + wk)
+        elif kind == "tuple":
+            o = ds.ETags(tuple(st), tuple(wk))
+        elif kind == "generator":
+            o = ds.ETags((x for x in st), (x for x in wk))
+        elif kind == "set":
+            o = ds.ETags(set(st), frozenset(wk))
+        else:
+            o = ds.ETags(dict.fromkeys(st).keys(), dict.fromkeys(wk).keys())
+    elif codec in ("cachecontrol", "csp"):
+        if m[0] == "setattr":
+            setattr(o, m[1], untv(m[2]) if isinstance(m[2], dict) else m[2])
+        elif m[0] == "delattr":
+            delattr(o, m[1])
+        else:
+            _apply_mapping_mut(o, m)
+    elif codec == "crange":
+        if m[0] == "unset":
+            o.unset()
+        elif m[0] == "set":
+            o.set(m[1], m[2], m[3], m[4])
+        else:
+            setattr(o, m[1], m[2])
+    elif codec == "range":
+        if m[0] == "units":
+            o.units = m[1]
+        elif m[0] == "replace":
+            o.ranges = [(a, b) for a, b in m[1]]
+        elif m[0] == "set0":
+            o.ranges = list(o.ranges)
+            o.ranges[0] = tuple(m[1])
+            del o.ranges[1:]
+        elif m[0] == "append-after":
+            o.ranges = list(o.ranges)
+            last = o.ranges[-1]
+            if last[1] is not None and last[0] >= 0:
+                o.ranges.append((last[1] + m[1], last[1] + m[1] + m[2]))
+    elif codec in ("wwwauth", "authz"):
+        if m[0] == "drop-token":
+            o.token = None
+        elif m[0] == "params":
+            o.parameters[m[1]] = m[2]
+        elif m[0] == "setitem":
+            o[m[1]] = m[2]
+        elif m[0] == "delitem":
+            del o[m[1]]
+        elif m[0] == "attr":
+            setattr(o, m[1], m[2])
+        elif m[0] == "replace-params":
+            o.parameters = {k: v for k, v in m[1]}
+        elif m[0] == "token":
+            if codec == "wwwauth":
+                o.parameters = {}
+            else:
+                o.parameters.clear()
+            o.token = m[1]
+        elif m[0] == "type":
+            o.type = m[1]
+    return o
+
+
+def run_value_history(case):
+    """build the value through its public mutators, then the usual dump / parse / re-dump / re-parse; one "vh" line"""
+    name, variant = case["codec"], case.get("variant", "")
+    c = Codec(name, variant)
+    rec = {"op": "vh", "codec": name, "hk": "history", "v": [], "dumped": [], "parsed": [], "redumped": [], "reparsed": [], "err": "", "err2": "",
+           "init": case["j"] if name == "setv" else [], "muts": case["muts"] if name == "setv" else []}
+    obj = c.mk(case["j"], variant)
+    for m in case["muts"]:
+        try:
+            obj = _apply_mut(name, obj, m)
+        except (KeyError, IndexError, TypeError, ValueError, AttributeError):
+            pass  # a mutator that refuses (missing member, index out of range): the history goes on
+    if name == "setv":
+        init = [T(x) for x in case["j"]]
+        names = list(dict.fromkeys(init + [T(m["a"]) for m in case["muts"] if m["a"]] + [T(x) for m in case["muts"] for x in m["l"]]))
+        c.probes = list(dict.fromkeys(names + [x.lower() for x in names] + [x.upper() for x in names] + SET_NAMES[:7]))
+        rec["hk"] = _set_label(init, case["muts"])
+    rec["v"] = c.proj(obj)
+    if name == "cachecontrol":
+        rec["v"]["assigns"] = []
+    try:
+        dumped = c.dump(obj)
+        rec["dumped"] = cps(dumped)
+        parsed = c.parse(dumped, obj)
+        rec["parsed"] = c.proj(parsed)
+    except Exception as e:  # noqa: BLE001 - recorded, judged by TLC
+        rec["err"] = type(e).__name__
+        return [rec]
+    if parsed is None:
+        return [rec]
+    try:
+        red = c.dump(parsed)
+        rec["redumped"] = cps(red)
+        rec["reparsed"] = c.proj(c.parse(red, obj))
+    except Exception as e:  # noqa: BLE001
+        rec["err2"] = type(e).__name__
+    return [rec]
+
+
+# ---- HTTP dates by tzinfo kind -------------------------------------------------------------------
+TZ_KINDS = ("naive", "utc", "tz-zero-new-object", "tz+0530", "tz-0800", "tz+1400", "tz-1200", "tz+30s", "zoneinfo-utc", "zoneinfo-london",
+            "zoneinfo-kolkata", "custom-zero", "custom+0530", "custom-0330")
+DATE_PATHS = ("http_date", "if_range", "cookie_expires", "response.last_modified", "response.expires", "response.date", "response.retry_after")
+
+
+def _tz(kind):
+    from datetime import timedelta, timezone, tzinfo
+    from zoneinfo import ZoneInfo
+
+    class Fixed(tzinfo):
+        def __init__(self, minutes):
+            self.minutes = minutes
+
+        def utcoffset(self, dt):
+            return timedelta(minutes=self.minutes)
+
+        def dst(self, dt):
+            return timedelta(0)
+
+        def tzname(self, dt):
+            return "X"
+
+    return {"naive": lambda: None, "utc": lambda: timezone.utc, "tz-zero-new-object": lambda: timezone(timedelta(0)),
+            "tz+0530": lambda: timezone(timedelta(hours=5, minutes=30)), "tz-0800": lambda: timezone(timedelta(hours=-8)),
+            "tz+1400": lambda: timezone(timedelta(hours=14)), "tz-1200": lambda: timezone(timedelta(hours=-12)),
+            "tz+30s": lambda: timezone(timedelta(seconds=30)), "zoneinfo-utc": lambda: ZoneInfo("UTC"), "zoneinfo-london": lambda: ZoneInfo("Europe/London"),
+            "zoneinfo-kolkata": lambda: ZoneInfo("Asia/Kolkata"), "custom-zero": lambda: Fixed(0), "custom+0530": lambda: Fixed(330),
+            "custom-0330": lambda: Fixed(-210)}[kind]()
+
+
+def date_cases(rng: random.Random, n_random: int):
+    """datetimes of every tzinfo kind (winter / summer, with and without microseconds) through every formatting path"""
+    stamps = [[2024, 1, 15, 12, 30, 45, 0], [2024, 7, 15, 12, 30, 45, 999999], [1999, 12, 31, 23, 59, 59, 1], [2000, 2, 29, 0, 0, 0, 0],
+              [2038, 1, 19, 3, 14, 8, 500000], [1970, 1, 1, 0, 0, 0, 0], [2024, 3, 31, 1, 30, 0, 0], [2024, 10, 27, 1, 30, 0, 250000]]
+    cases = []
+    for kind in TZ_KINDS:
+        for st in stamps:
+            for path in DATE_PATHS:
+                cases.append({"op": "vhdate", "codec": "date", "tz": kind, "path": path, "dt": st})
+    for _ in range(n_random):
+        d = rdate(rng)
+        y = min(max(d[0], 1001), 9998)
+        cases.append({"op": "vhdate", "codec": "date", "tz": rng.choice(TZ_KINDS), "path": rng.choice(DATE_PATHS),
+                      "dt": [y, d[1], min(d[2], 28), d[3], d[4], d[5], rng.choice([0, 1, 999999, rng.randrange(0, 1000000)])]})
+    for secs, us in ((5, 999999), (0, 1), (86400 * 2, 1), (59, 500000)):
+        cases.append({"op": "vhdate", "codec": "age", "tz": "timedelta-with-microseconds", "path": "dump_age", "dt": [secs, us]})
+    return cases
+
+
+def run_date_case(case):
+    from datetime import datetime, timedelta
+
+    from werkzeug import http
+    from werkzeug.datastructures import IfRange
+    from werkzeug.wrappers import Response
+
+    rec = {"op": "vh", "codec": case["codec"], "hk": f"{case['path']}/{case['tz']}", "v": [], "dumped": [], "parsed": [], "redumped": [], "reparsed": [],
+           "err": "", "err2": "", "init": [], "muts": []}
+    if case["codec"] == "age":
+        td = timedelta(seconds=case["dt"][0], microseconds=case["dt"][1])
+        rec["v"] = digits(td.days * 86400 + td.seconds)
+        c = Codec("age")
+        try:
+            text = http.dump_age(td)
+            rec["dumped"] = cps(text)
+            parsed = http.parse_age(text)
+            rec["parsed"] = c.proj(parsed)
+            rec["redumped"] = cps(http.dump_age(parsed))
+            rec["reparsed"] = c.proj(http.parse_age(http.dump_age(parsed)))
+        except Exception as e:  # noqa: BLE001
+            rec["err"] = type(e).__name__
+        return [rec]
+    y, mo, d, h, mi, s, us = case["dt"]
+    dt = datetime(y, mo, d, h, mi, s, us, tzinfo=_tz(case["tz"]))
+    rec["v"] = _date_proj(dt)
+    path = case["path"]
+    try:
+        if path == "http_date":
+            text = http.http_date(dt)
+            parsed = http.parse_date(text)
+        elif path == "if_range":
+            text = IfRange(date=dt).to_header()
+            parsed = http.parse_if_range_header(text).date
+        elif path == "cookie_expires":
+            text = [p for p in http.dump_cookie("k", "v", expires=dt).split("; ") if p.startswith("Expires=")][0][len("Expires="):]
+            parsed = http.parse_date(text)
+        else:
+            attr = path.split(".")[1]
+            r = Response()
+            setattr(r, attr, dt)
+            text = r.headers[{"last_modified": "Last-Modified", "expires": "Expires", "date": "Date", "retry_after": "Retry-After"}[attr]]
+            parsed = getattr(r, attr)
+        rec["dumped"] = cps(text)
+        rec["parsed"] = _date_proj(parsed)
+    except Exception as e:  # noqa: BLE001
+        rec["err"] = type(e).__name__
+        return [rec]
+    if parsed is None:
+        return [rec]
+    try:
+        red = http.http_date(parsed)
+        rec["redumped"] = cps(red)
+        rec["reparsed"] = _date_proj(http.parse_date(red))
+    except Exception as e:  # noqa: BLE001
+        rec["err2"] = type(e).__name__
+    return [rec]
+
+
+def run_vh(case):
+    return run_date_case(case) if case["op"] == "vhdate" else run_value_history(case)
+
+
+def run_vhs(cases):
+    return [run_vh(c) for c in cases]
